@@ -71,6 +71,9 @@ func init() {
 }
 
 func runC07(p *chk.Prog, r *chk.Report) {
+	// the gate that lets single-Service events through is opened once and never closed again (GATE, shared with C06): a
+	// closed gate drops every event, and a pending Service is then never retried
+	c06Gate(p, r)
 	argRolesRule(p, r, 20, allocPkg, "controller")
 	c07Fallback(p, r)
 	assignCommitsRule(p, r)
